@@ -525,3 +525,38 @@ Proof.
   replace (c - 0) with c in H2 by lia.
   rewrite <- H2. apply hdr_loop_fuel; rewrite ?firstn_length; lia.
 Qed.
+
+(* a complete header block ends with CR LF *)
+Lemma hdr_loop_complete_tail f lim s acc off hs c :
+  hdr_loop f lim s acc off = HComplete hs c ->
+  off + 2 <= c /\ c - off <= length s /\ skipn (c - off - 2) (firstn (c - off) s) = [CR; LF].
+Proof.
+  revert s acc off. induction f as [|f IH]; intros s acc off H; [discriminate|].
+  rewrite hdr_loop_step in H.
+  destruct (hdr_step lim s) as [|e|c1|h c1] eqn:E; try discriminate.
+  - inversion H; subst hs c.
+    destruct (hdr_step_done_app lim s [] c1 E) as [_ [-> Hl]].
+    destruct (hdr_step_done_inv _ _ _ E) as [F _].
+    pose proof (find_crlf_at _ _ F) as At. change (skipn 0 s) with s in At.
+    split; [lia|]. split; [lia|].
+    replace (off + 2 - off) with 2 by lia. change (2 - 2) with 0. rewrite At. reflexivity.
+  - pose proof (hdr_step_field_pos _ _ _ _ E) as [Hpos Hcs].
+    apply IH in H. destruct H as [H1 [H2 H3]]. rewrite skipn_length in H2.
+    split; [lia|]. split; [lia|].
+    replace (c - off) with (c1 + (c - (off + c1))) by lia.
+    rewrite <- (firstn_skipn c1 s) at 1.
+    rewrite firstn_app. rewrite firstn_length. replace (Nat.min c1 (length s)) with c1 by lia.
+    replace (c1 + (c - (off + c1)) - c1) with (c - (off + c1)) by lia.
+    rewrite firstn_firstn. replace (Nat.min (c1 + (c - (off + c1))) c1) with c1 by lia.
+    rewrite skipn_app. rewrite firstn_length. replace (Nat.min c1 (length s)) with c1 by lia.
+    replace (c1 + (c - (off + c1)) - 2 - c1) with (c - (off + c1) - 2) by lia.
+    rewrite H3. rewrite skipn_all2; [reflexivity|]. rewrite firstn_length. lia.
+Qed.
+
+Lemma hdr_parse_complete_tail lim hs s hs' c :
+  hdr_parse lim hs s = HComplete hs' c ->
+  2 <= c /\ c <= length s /\ skipn (c - 2) (firstn c s) = [CR; LF].
+Proof.
+  unfold hdr_parse. intros H. apply hdr_loop_complete_tail in H.
+  replace (c - 0) with c in H by lia. destruct H as [H1 [H2 H3]]. repeat split; try lia. exact H3.
+Qed.
